@@ -56,6 +56,11 @@ func instantiate(stmts []string, asset string, extra map[string][2]string) (stri
 	}
 	sortStrings(names)
 	for _, k := range names {
+		if strings.HasPrefix(k, "_") {
+			// harness directive (e.g. _omit=acc), not a variable
+			specs = append(specs, k+"="+extra[k][1])
+			continue
+		}
 		decls = append(decls, extra[k][0]+" $"+k)
 		specs = append(specs, k+"="+extra[k][1])
 	}
